@@ -449,6 +449,7 @@ func main() {
 		harness.Fatal("mkdtemp: %v", err)
 	}
 	cleanup := func() { os.RemoveAll(tmp) }
+	harness.OnExit(cleanup) // also on the paths that leave through the harness (Finish, Fatal)
 	if err := writeFixtures(tmp); err != nil {
 		cleanup()
 		harness.Fatal("fixtures: %v", err)
